@@ -872,6 +872,22 @@ def int_ord(c):
     return [(c.st, TOP)]
 
 
+@model(r"^<stun_(types|proto)::.* as std::cmp::PartialEq(<.*>)?>::ne$")
+def local_ne(c):
+    """the provided `ne` of a workspace type: !eq"""
+    m = re.match(r"^<(.*) as std::cmp::PartialEq(<.*>)?>::ne$", c.name)
+    want = _strip_lt(m.group(1))
+    for path, i in c.it.prog.trait_method_impls("std::cmp::PartialEq", "eq"):
+        if path in c.it.prog.bodies and _strip_lt(i["self_s"]) == want:
+            res = c.it.call_local(c.st, c.fr, c.bb, path, c.args, c.term, part=c.part)
+            out = []
+            for st2, ret in res:
+                cnd = c.it.as_cond(ret)
+                out.append((st2, c.it.simplify_cond(st2, Cond("not", cnd)) if cnd is not None else TOP))
+            return out
+    return [(c.st, TOP)]
+
+
 @model(r"^std::cmp::impls::<impl std::cmp::(PartialEq|PartialOrd|Ord|Eq)(<.*>)? for .*>::|^std::array::equality::<impl std::cmp::PartialEq(<.*>)? for \[.*\]>::(eq|ne)$|^std::vec::partial_eq::<impl std::cmp::PartialEq(<.*>)? for .*>::(eq|ne)$"
        r"|^<std::boxed::Box<.*> as std::cmp::PartialEq>::(eq|ne)$|^core::slice::cmp::<impl std::cmp::PartialEq(<.*>)? for \[.*\]>::(eq|ne)$|^<std::string::String as std::cmp::PartialEq(<.*>)?>::(eq|ne)$"
        r"|^core::str::traits::<impl std::cmp::PartialEq for str>::(eq|ne)$|^<.* as std::cmp::(PartialEq|PartialOrd|Ord)(<.*>)?>::(eq|ne|cmp|partial_cmp|lt|le|gt|ge|max|min)$|^std::cmp::(max|min)::<")
